@@ -6,6 +6,7 @@ INVARIANT DlIsLastGivenElseDefault
 INVARIANT PoptIsLastGivenElseCreationDefault
 INVARIANT XoptIsLastGivenElseDefault
 INVARIANT DropOverrideInherits
+INVARIANT ArrIsLastGivenElseDefault
 INVARIANT LevelIsLastGivenElseDefault
 INVARIANT RecordedCmdlineIsWhatTheUserGave
 PROPERTY FailedStepIsNoop
